@@ -680,3 +680,6 @@ _OPT_NOTE = " Patterns include optional fields (a field whose value is an option
 for _p in ("C01", "C02", "C05"):
     PROPS[_p]["rule"] += _OPT_NOTE
 PROPS["C03"]["rule"] += " Patterns may use property variables, and one case in ten is a property chain: a variable bound by an earlier conjunct (or by the event) used as a property by a later pattern, bare or under `not`, over facts that offer several properties. The reference evaluator substitutes bound variables in property position too (when bound to a string)."
+PROPS["C03"]["rule"] += " One case in ten is a not-chain: several candidate bindings go into a `not` whose inside reads them (another `not`, a script comparing the variable, an `and` of both)."
+PROPS["C08"]["rule"] += " A property written as a fact may carry a deleteWith of its own that does not name its target (empty, a dangling id, another id); it still goes with its target."
+PROPS["C14"]["rule"] += " Values in which one object occurs twice (shared, not circular) must come back intact; the self-referring family includes function values with properties."
